@@ -31,7 +31,7 @@ RULE = ('each run is (a) a fake-peer run: a status sequence drawn from gpg\'s vo
         'or (b) a real-gpg run: key state x owner-trust level x peer clock x flipped signed byte x user-GNUPGHOME content '
         'x API (library, CLI with -K/-s/-P) x process fault (exit status, signal, truncated/no output); non-trivial = a '
         'fault, a non-default key state/trust/clock or a mutation was in play; distinct = distinct outcome digest')
-PLAN = {'quick': {'n': 2000, 'budget_s': 55, 'block': 25, 'det': 3},
+PLAN = {'quick': {'n': 6000, 'budget_s': 90, 'block': 25, 'det': 3},
         'thorough': {'n': 60000, 'budget_s': 1500, 'block': 100, 'det': 4}}
 ASSUMPTIONS = ['sequences with contradictory reports (several signatures: GOODSIG together with BADSIG/ERRSIG/EXPSIG, or accepting and rejecting TRUST_ lines) are a don\'t-care zone',
                'real-gpg runs log verdict classes only (no key material, fingerprints or times)']
@@ -76,7 +76,7 @@ PAYLOAD = 'TIMESTAMP 2020-03-01T00:00:00Z\nDATA a/b 4 SHA256 aa MD5 bb\nDATA c 0
 
 def generate(rng, tier, idx):
     if rng.random() < 0.6:
-        shape = rng.choice(['good', 'good', 'good', 'expkey', 'revkey', 'bad', 'err', 'expsig', 'nodata'])
+        shape = rng.choice(['good', 'good', 'good', 'expkey', 'revkey', 'bad', 'err', 'expsig', 'nodata', 'double', 'double'])
         t = rng.choice(TRUSTS)
         vs = rng.choice(['VALIDSIG', 'VALIDSIG', 'VALIDSIG_ISO'])
         if shape == 'good':
@@ -97,6 +97,14 @@ def generate(rng, tier, idx):
         elif shape == 'expsig':
             seq = ['NEWSIG', 'KC', 'SIG_ID', 'EXPSIG', vs, t]
             rc = 0
+        elif shape == 'double':
+            # two signatures on one message, as gpg reports them (exit 0 unless one is bad)
+            second = rng.choice(['EXPKEYSIG', 'REVKEYSIG', 'GOODSIG', 'BADSIG', 'EXPKEYSIG', 'REVKEYSIG'])
+            first = ['NEWSIG', 'KC', 'SIG_ID', 'GOODSIG', vs, 'KC', rng.choice(ACCEPTING)]
+            sec = ['NEWSIG', 'KC'] + (['KEYEXPIRED'] if second == 'EXPKEYSIG' else ['KEYREVOKED'] if second == 'REVKEYSIG' else []) + \
+                  ['SIG_ID', second] + ([vs, 'KC', t] if second != 'BADSIG' else [])
+            seq = (first + sec) if rng.random() < 0.7 else (sec + first)
+            rc = 1 if second == 'BADSIG' else 0
         else:
             seq = ['NODATA', 'FAILURE']
             rc = 2
@@ -168,6 +176,11 @@ def model_fake(lines, rc):
         dontcare = 'several-validsig'
     accept = (rc == 0 and has('GOODSIG') and bool(valid_ok) and len(valid_ok) == len(valid) and bool(acc)
               and not has('EXPKEYSIG') and not has('REVKEYSIG'))
+    # the don't-care zones only ever excuse a rejection: an expired-key or revoked-key
+    # report, a non-zero exit or a missing good/valid report forces rejection whatever
+    # else the sequence contains
+    if has('EXPKEYSIG') or has('REVKEYSIG') or rc != 0 or not has('GOODSIG') or not valid_ok or not acc:
+        dontcare = None
     return accept, dontcare
 
 
